@@ -49,12 +49,14 @@ static void project(struct Slot* so, int o) {
   static long long buf[1 << 16], ss[1 << 16];
   volatile size_t n = 0, nss = 0;
   size_t L = len(c);
+  uint64_t addr_sig = 1469598103934665603ULL;     /* element addresses in order: references must survive a failed call */
   ev_obj_begin();
   ev_int("o", o); ev_str("kind", kind_name(so->kind)); ev_int("len", (long long)L);
   size_t lim = L + 4; if (lim > (1 << 16)) lim = 1 << 16;
   try {
     var it = iter_init(c);
     while (it != Terminal && n < lim) {
+      addr_sig = (addr_sig ^ (uint64_t)(uintptr_t)it) * 0x100000001b3ULL;
       long long tk = vt_token(vt_k, vt_nk, it);
       if (etk == VT_PROBE && so->kind != 3) { ss[nss] = ((struct Probe*)it)->serial; nss++; }
       if (etk == VT_BOX && so->kind != 3) { struct Probe* pp = ((struct Box*)it)->val; ss[nss] = pp ? pp->serial : -1; nss++; }
@@ -95,6 +97,7 @@ static void project(struct Slot* so, int o) {
   }
   ev_ints("mems", buf, n);
   ev_ints("ss", ss, nss);
+  ev_limbs("ah", addr_sig);
   ev_obj_end();
 }
 
